@@ -68,7 +68,10 @@ fn check_matrix(st: &mut Stats, prop: &str, line: &Value, variant: u32) -> Vec<S
     let (row_ids, col_ids): (Vec<u32>, Vec<u32>) = match variant {
         0 => ((1..=r as u32).collect(), (101..=100 + c as u32).collect()),
         1 => ((1..=r as u32).collect(), (1..=c as u32).collect()),
-        _ => ((0..r as u32).map(|i| i * 999_983 + 7).collect(), (0..c as u32).map(|j| 9_999_999 - j * 31).rev().collect()),
+        _ => {
+            let stride = 9_000_000 / (r.max(1) as u32);
+            ((0..r as u32).map(|i| i * stride + 7).collect(), (0..c as u32).map(|j| 9_999_999 - j * 31).rev().collect())
+        }
     };
     let mut all: Vec<u32> = row_ids.iter().chain(col_ids.iter()).copied().collect();
     all.sort_unstable();
